@@ -8,7 +8,7 @@
      [words_to_chunk_current]  the code as it stands: GetBytesNumber(v) > 3 -> ToBytes(v) with the computed
                                length, i.e. FIVE bytes when v >= 2^32 (finding F8). *)
 From Coq Require Import NArith List.
-From BU Require Import Base.Exn Base.Radix Base.Bytes Model.MnemWords.
+From BU Require Import Base.Exn Base.Radix Base.Bytes Model.MnemWords Gen.MnemConsts.
 Import ListNotations.
 Open Scope N_scope.
 
@@ -24,9 +24,9 @@ Definition int_to_bytes_fixed (e : endian) (w : nat) (v : N) : res (list N) :=
 Definition int_to_bytes_auto (e : endian) (v : N) : list N :=
   match e with Big => int_to_be_auto v | Little => rev (int_to_be_auto v) end.
 
-(* the chunk is 4 bytes: `bytes_num=4` / `GetBytesNumber(int_chunk) > 3` in the source *)
-Definition chunk_byte_len : nat := 4%nat.
-Definition chunk_limit : N := 256 ^ 4.
+(* the chunk width [chunk_byte_len] is the `bytes_num=4` of the source (Gen/MnemConsts.v); the `3` of
+   `GetBytesNumber(int_chunk) > 3` in the code as it stands is kept as the literal it is *)
+Definition chunk_limit : N := 256 ^ N.of_nat chunk_byte_len.
 
 Section Chunk.
   Variable n : N.                            (* words_list.Length() *)
